@@ -42,7 +42,8 @@ Definition holds (c : case) : bool :=
       match cc_obs cc with
       | ODone t k _ _ _ _ _ => v && stop_rule_ok cc (to_vec t) (N.to_nat k)
       | OFailed code => negb v || N.eqb code 6   (* rejected before iterating, or divergence reported *)
-      | OTimeout | OPanic => false
+      | OTimeout => PrimFloat.ltb (cc_a cc) 0x1.0624dd2f1a9fcp-10   (* termination is claimed for a >= 0.001 only *)
+      | OPanic => false
       end
   | Bound cc b =>
       match cc_obs cc with
